@@ -47,8 +47,10 @@ func runWindow(seed uint64, cas int, tier string) *WindowRes {
 		{"RENAME d1/a -> d1/c2 (existing)", func(w map[string][]byte) *Op { return &Op{K: OpRename, H: w["d1"], Name: "a", H2: w["d1"], Name2: "c2"} }},
 		{"LOOKUP d1/..", func(w map[string][]byte) *Op { return &Op{K: OpLookup, H: w["d1"], Name: ".."} }},
 		{"RMDIR d2/low", func(w map[string][]byte) *Op { return &Op{K: OpRmdir, H: w["d2"], Name: "low"} }},
+		{"RENAME d1/a -> d2/n (free name)", func(w map[string][]byte) *Op { return &Op{K: OpRename, H: w["d1"], Name: "a", H2: w["d2"], Name2: "n"} }},
+		{"RENAME d2/low -> d1/low (directory to a free name)", func(w map[string][]byte) *Op { return &Op{K: OpRename, H: w["d2"], Name: "low", H2: w["d1"], Name2: "low"} }},
 	}
-	nscripts := 10
+	nscripts := 12
 	idx := 0
 	for ai := range aops {
 		for sc := 0; sc < nscripts; sc++ {
@@ -145,6 +147,10 @@ func oneWindow(seed uint64, aname string, aop func(map[string][]byte) *Op, scrip
 		B = []*Op{{K: OpRename, H: d1, Name: "a", H2: d1, Name2: "tmp"}, {K: OpRename, H: d1, Name: "c2", H2: d1, Name2: "a"}, {K: OpRename, H: d1, Name: "tmp", H2: d1, Name2: "c2"}}
 	case 9: // like 3, without any cross-directory rename (those serialise with a parked cross-directory RENAME)
 		B = []*Op{{K: OpRemove, H: d1, Name: "a"}, {K: OpRemove, H: d1, Name: "c2"}, {K: OpRmdir, H: root, Name: "d1"}, {K: OpMkdir, H: root, Name: "e"}}
+	case 10: // the free target name is taken
+		B = []*Op{{K: OpCreate, H: d2, Name: "n"}, {K: OpMkdir, H: d1, Name: "low"}}
+	case 11: // the free target name is taken and released again, the source is replaced
+		B = []*Op{{K: OpCreate, H: d2, Name: "n"}, {K: OpRemove, H: d2, Name: "n"}, {K: OpRemove, H: d1, Name: "a"}, {K: OpCreate, H: d1, Name: "a"}}
 	case 8: // the sub-directory is replaced
 		B = []*Op{{K: OpRmdir, H: d2, Name: "low"}, {K: OpMkdir, H: d2, Name: "low"}}
 	}
